@@ -26,8 +26,8 @@ def query_body(kind):
             '</CR:addressbook-query>')
 
 
-def report_data(srv, coll, kind, body):
-    st, h, b = srv.request("REPORT", coll, data=body)
+def report_data(srv, coll, kind, body, **headers):
+    st, h, b = srv.request("REPORT", coll, data=body, **headers)
     out = {}
     if st != 207:
         return st, out
@@ -81,6 +81,7 @@ def run_server_part(ctx, HEADER, corr):
         _known_deviations(ctx, srv, g)
     finally:
         srv.close()
+    _encodings(ctx, g)
     for k, v in g.features.items():
         ctx.count("grammar:" + k, v)
 
@@ -587,3 +588,157 @@ def _known_deviations(ctx, srv, g):
         if changed or unstable:
             ctx.violation(KNOWN[sig], dict(path=path, upload=text, served=got, reupload_status=st3, second=got3,
                                            diff=X.diff_facts(exp, act)), signature=sig)
+
+
+# ---------------------------------------------------------------------------------------------------------------
+# the configuration dimension: [encoding] stock / request
+# ---------------------------------------------------------------------------------------------------------------
+def encodable(text, charset):
+    try:
+        text.encode(charset)
+        return True
+    except UnicodeError:
+        return False
+
+
+def restrict_to(text, charsets):
+    """The same object with every non-ASCII character that one of the charsets cannot hold replaced (structure untouched)."""
+    return "".join(c if ord(c) < 128 or all(encodable(c, cs) for cs in charsets) else "e" for c in text)
+
+
+def purge_item_cache(folder):
+    import os
+    import shutil
+    n = 0
+    for root, dirs, _ in os.walk(folder):
+        for d in list(dirs):
+            if d == ".Radicale.cache":
+                shutil.rmtree(os.path.join(root, d))
+                dirs.remove(d)
+                n += 1
+    return n
+
+
+def _encodings(ctx, g):
+    """Round trip under every configured storage / response charset, with cold-cache re-reads: what comes back must be
+    what the stored BYTES hold, not what the upload left in the cache."""
+    rng = ctx.rng
+    first = {}
+
+    def fail(kind, what, replay):
+        if kind not in first:
+            first[kind] = True
+            ctx.violation(what, replay)
+
+    configs = [("utf-8", "utf-8"), ("iso-8859-15", "utf-8"), ("cp1252", "utf-8"), ("utf-16", "utf-8"),
+               ("utf-8", "iso-8859-15"), ("iso-8859-15", "iso-8859-15")]
+    if not ctx.quick:
+        configs += [("latin-1", "utf-8"), ("utf-16-le", "utf-8"), ("utf-32", "utf-8"), ("koi8-r", "utf-8"), ("cp437", "utf-8"),
+                    ("cp1252", "iso-8859-15"), ("utf-8", "cp1252"), ("shift_jis", "utf-8"), ("utf-8", "utf-16")]
+    n_obj = ctx.n(5, 24)
+    for stock, request in configs:
+        conf = {"auth": {"type": "none"}, "rights": {"type": "authenticated"}, "encoding": {"stock": stock, "request": request}}
+        srv = impl.Server(conf=conf)
+        try:
+            xml_utf8 = dict(CONTENT_TYPE="text/xml; charset=utf-8")     # the harness declares the charset of its XML bodies
+            srv.mkcol("/u/")
+            srv.mkcalendar("/u/c/")
+            srv.mkaddressbook("/u/a/", **xml_utf8)
+            stored = {}
+            unservable = set()      # collections holding an object the response charset cannot express
+            for i in range(n_obj):
+                card = i % 4 == 3
+                uid = "enc-%s-%d" % (g.ident(4), i)
+                tree = g.card_object(uid) if card else g.cal_object(uid)
+                full = g.render(tree, style=dict(eol="\r\n", fold=rng.choice(["none", "75"]), lower=False, quote_all=False))
+                full = full.replace("DESCRIPTION:", "DESCRIPTION:caf\u00e9 \u20ac Z\u00fcrich ", 1) if "DESCRIPTION:" in full else full.replace("\r\nUID:", "\r\nX-ENC:caf\u00e9 \u20ac \u65e5\u672c\r\nUID:", 1)
+                for variant in ("inside", "outside"):
+                    text = restrict_to(full, [stock, request]) if variant == "inside" else full
+                    if variant == "outside":
+                        if encodable(text, stock) and encodable(text, request):
+                            continue
+                        text = text.replace(uid, "x" + uid)       # its own UID: not a conflict with the inside variant
+                    path = ("/u/a/%s%d.vcf" if card else "/u/c/%s%d.ics") % (variant[0], i)
+                    via_request_charset = variant == "inside" and rng.random() < 0.5
+                    if via_request_charset:
+                        st, h, _ = srv.request("PUT", path, data=text.encode(request), CONTENT_TYPE="text/vcard" if card else "text/calendar")
+                    else:
+                        st, h, _ = srv.request("PUT", path, data=text.encode("utf-8"),
+                                               CONTENT_TYPE=("text/vcard" if card else "text/calendar") + "; charset=utf-8")
+                    ctx.case(("encoding", stock, request, text), nontrivial=any(ord(c) > 127 for c in text))
+                    ctx.count("encoding:%s/%s:%s:put-%d" % (stock, request, variant, st))
+                    replay = dict(step="PUT, GET, purge .Radicale.cache, GET, fresh Application, GET/REPORT/export",
+                                  config=conf["encoding"], path=path, upload=text, body_charset=request if via_request_charset else "utf-8")
+                    if st != 201:
+                        if variant == "inside":
+                            fail("enc-refused", "[encoding] stock=%s request=%s: an object whose text the charsets can hold is refused (%s)" % (stock, request, st), replay)
+                        continue
+                    exp = X.expected_facts(text)
+
+                    def served(server, label, want_bytes=None):
+                        st2, h2, b2 = server.request("GET", path)
+                        if st2 != 200:
+                            if encodable(text, request):
+                                fail("enc-get", "[encoding] stock=%s request=%s: %s GET answers %s for a stored object" % (stock, request, label, st2), dict(replay, phase=label))
+                            else:
+                                ctx.count("encoding:unservable-in-response-charset")
+                                unservable.add("/u/a/" if card else "/u/c/")
+                            return None
+                        try:
+                            got = b2.decode(request)
+                            act = X.facts(got)
+                        except (UnicodeError, X.IParseError) as e:
+                            fail("enc-parse", "[encoding] stock=%s request=%s: %s GET body unreadable: %s" % (stock, request, label, e), dict(replay, phase=label))
+                            return None
+                        if act != exp:
+                            fail("enc-facts", "[encoding] stock=%s request=%s: %s GET returns other content than was stored: %s" % (
+                                stock, request, label, json_short(X.diff_facts(exp, act))), dict(replay, phase=label, served=got))
+                        if h2.get("ETag") != h.get("ETag"):
+                            fail("enc-etag", "[encoding] stock=%s request=%s: %s GET has another ETag than the PUT" % (stock, request, label), dict(replay, phase=label, served=got))
+                        if want_bytes is not None and b2 != want_bytes:
+                            fail("enc-cold", "[encoding] stock=%s request=%s: the text served after the cache is gone differs from the text served before" % (stock, request),
+                                 dict(replay, phase=label, served=got))
+                        return b2
+                    warm = served(srv, "warm")
+                    purge_item_cache(srv.folder)
+                    cold = served(srv, "cold-cache", warm)
+                    if cold is not None:
+                        stored[path] = (text, cold.decode(request), card)
+                        if rng.random() < 0.5:
+                            st3, h3, _ = srv.request("PUT", path, data=cold, CONTENT_TYPE=("text/vcard" if card else "text/calendar") + "; charset=" + request)
+                            if (st3 != 201 or h3.get("ETag") != h.get("ETag")) and not ws_only_continuation(cold.decode(request)):
+                                fail("enc-fixed", "[encoding] stock=%s request=%s: re-uploading the cold-read text gives %s / another ETag" % (stock, request, st3), replay)
+            # collection properties go through the same charset
+            dn = restrict_to("Z\u00fcrich caf\u00e9 \u20ac", [stock, request])
+            srv.request("PROPPATCH", "/u/c/", data=('<?xml version="1.0" encoding="utf-8"?><D:propertyupdate xmlns:D="DAV:"><D:set><D:prop><D:displayname>%s'
+                                                   '</D:displayname></D:prop></D:set></D:propertyupdate>' % dn).encode("utf-8"),
+                        CONTENT_TYPE="text/xml; charset=utf-8")
+            # a fresh Application on the same folder: nothing but the files
+            purge_item_cache(srv.folder)
+            srv2 = impl.Server(conf=conf, folder=srv.folder)
+            for kind, coll in (("cal", "/u/c/"), ("card", "/u/a/")):
+                mine = {p: v for p, v in stored.items() if v[2] == (kind == "card")}
+                if not mine:
+                    continue
+                st, data = report_data(srv2, coll, kind, multiget_body(kind, list(mine)), **xml_utf8)
+                if st != 207 or set(data) != set(mine):
+                    fail("enc-report", "[encoding] stock=%s request=%s: REPORT on a fresh Application: status %s, %d of %d objects" % (stock, request, st, len(data), len(mine)),
+                         dict(config=conf["encoding"], coll=coll))
+                else:
+                    for href, (txt, _) in data.items():
+                        if X.facts(txt) != X.expected_facts(mine[href][0]):
+                            fail("enc-report", "[encoding] stock=%s request=%s: REPORT on a fresh Application returns other content for %s: %s" % (
+                                stock, request, href, json_short(X.diff_facts(X.expected_facts(mine[href][0]), X.facts(txt)))),
+                                dict(config=conf["encoding"], href=href, upload=mine[href][0], report=txt))
+                            break
+                st, h, b = srv2.request("GET", coll)
+                if st == 200:
+                    exported = b.decode(request)
+                    check_export(ctx, fail, coll, kind, [v[1] for v in mine.values()], exported)
+                    if kind == "cal" and ("X-WR-CALNAME;VALUE=TEXT:" + dn) not in X.unfold(exported):
+                        fail("enc-props", "[encoding] stock=%s request=%s: the display name %r does not come back from .Radicale.props" % (stock, request, dn),
+                             dict(config=conf["encoding"], coll=coll, exported=exported[:1500]))
+                elif coll not in unservable:
+                    fail("enc-export", "[encoding] stock=%s request=%s: export on a fresh Application answers %s" % (stock, request, st), dict(config=conf["encoding"], coll=coll))
+        finally:
+            srv.close()
